@@ -164,9 +164,11 @@ def local_task(p, cfg, rec):
 # ---------------------------------------------------------------------------------------------------
 # (b) system obligations: all evaluation orders
 
-def designs_b():
+def designs_b(tier='quick'):
     d = dict(D.DESIGNS)
     d['two-domains'] = lambda s: two_dom(s)
+    for k in range(6 if tier == 'quick' else 60):
+        d['random#%d' % k] = D.random_design(k)
     return d
 
 
@@ -317,7 +319,7 @@ def tasks_for(tier):
             tasks.append(('local %s %s' % (cname, vname), local_task, {'build': build, 'ranges': ranges}))
     import random
     rnd = random.Random(5)
-    for dname, build in designs_b().items():
+    for dname, build in designs_b(tier).items():
         # count clockables per driver
         with quiet():
             s = py4hw.HWSystem()
@@ -356,7 +358,7 @@ def main(argv=None):
         technique='symbolic execution of the real clock()/Simulator._clk_cycle from a symbolic pre-state; solver equality of post-state terms across all evaluation orders',
         assumptions=['pre-state: every attribute assigned in clock() and every register-driven wire symbolic (Reg.value == q)',
                      'listeners do not mutate wires; BidirWire outside'],
-        bounds={'designs': sorted(designs_b()), 'orders': 'all permutations of the clockables of each driver (capped at 40 quick / 800 thorough per design, seeded sample above the cap) and both driver orders',
+        bounds={'designs': sorted(designs_b(args.tier)), 'orders': 'all permutations of the clockables of each driver (capped at 40 quick / 800 thorough per design, seeded sample above the cap) and both driver orders',
                 'history': 'one step from an arbitrary state (induction over edges); clk(n) splittings for n <= 3 / 4'},
         trusted_base=['z3', 'symx operator semantics and fork-and-merge shell'],
         extra_coverage={'sequential_leaf_classes_found': sorted(seq_classes()), 'classes_without_local_harness': uncovered})
